@@ -378,6 +378,614 @@ Section Refresh.
   Qed.
 End Refresh.
 
+(** * Unchanged content is not rewritten, in a whole refresh *)
+Section Quiet.
+  Variable crc : N -> bytes -> N.
+  Notation update_one := (update_one crc).
+  Notation update_all := (update_all crc).
+  Notation refresh_array := (refresh_array crc).
+  Notation refresh := (refresh crc).
+
+  (** The source of a list fails, or delivers content with the checksum
+      recorded for the list. *)
+  Definition no_update (o : outcome) (sum : N) : Prop :=
+    fails crc o \/ exists d re st, o = OBody d re /\ parse crc d re = (st, None) /\ p_sum st = sum.
+
+  Lemma update_one_no_update l o fs : no_update o (f_sum l) ->
+    u_updated (fst (update_one l o fs)) = false /\ snd (update_one l o fs) = fs /\
+    u_list (fst (update_one l o fs)) = l.
+  Proof.
+    intros [F|(d & re & st & -> & P & E)].
+    - now rewrite update_one_failed.
+    - now rewrite (update_one_same_checksum crc l d re st fs P E).
+  Qed.
+
+  Lemma update_all_quiet i oc : forall ws fs,
+    (forall w, In w ws -> f_id w = i -> no_update (oc i) (f_sum w)) ->
+    fentry i (snd (update_all ws oc fs)) = fentry i fs /\
+    Forall (fun u => f_id (u_list u) = i -> u_updated u = false) (fst (update_all ws oc fs)).
+  Proof.
+    induction ws as [|w ws IH]; intros fs H; cbn [Refresh.update_all]; [split; [reflexivity|constructor]|].
+    assert (H1 : fentry i (snd (update_one w (oc (f_id w)) fs)) = fentry i fs /\
+                 (f_id (u_list (fst (update_one w (oc (f_id w)) fs))) = i ->
+                  u_updated (fst (update_one w (oc (f_id w)) fs)) = false)).
+    { destruct (N.eq_dec (f_id w) i) as [E|E].
+      - destruct (update_one_no_update w (oc (f_id w)) fs) as (A & B & C).
+        { rewrite E. apply H; [now left|exact E]. }
+        rewrite B. auto.
+      - split; [now apply update_one_other|rewrite update_one_id; congruence]. }
+    destruct (update_one w (oc (f_id w)) fs) as [u fs1]. cbn [fst snd] in H1.
+    specialize (IH fs1). destruct (update_all ws oc fs1) as [us fs2]. cbn [fst snd] in *.
+    destruct H1 as [A B]. destruct IH as [C D]; [intros; apply H; auto; now right|].
+    split; [congruence|]. constructor; auto.
+  Qed.
+
+  Lemma refresh_array_quiet i ls force due oc fs :
+    (forall l, In l ls -> f_id l = i -> no_update (oc i) (f_sum l)) ->
+    let '(_, _, ls', fs') := refresh_array ls force due oc fs in
+    fentry i fs' = fentry i fs /\
+    forall k l, nth_error ls k = Some l -> f_id l = i -> nth_error ls' k = Some l.
+  Proof.
+    intros Hq. unfold Refresh.refresh_array.
+    set (to_upd := map wcopy (filter _ ls)).
+    assert (Hw : forall w, In w to_upd -> f_id w = i -> no_update (oc i) (f_sum w)).
+    { intros w Hw Hi. apply in_map_iff in Hw. destruct Hw as (l & <- & Hl). apply filter_In in Hl.
+      cbn in *. apply Hq; tauto. }
+    destruct to_upd as [|t0 tu] eqn:Et; [auto|]. rewrite <- Et in *. clear Et.
+    destruct (update_all_quiet i oc to_upd fs Hw) as [A B].
+    destruct (update_all to_upd oc fs) as [us fs']. cbn [fst snd] in *.
+    destruct (forallb u_err us); [auto|].
+    pose proof (copy_back_all_unchanged i us B ls) as U.
+    destruct (copy_back_all us ls) as [n ls']. cbn [snd] in *. auto.
+  Qed.
+
+  (** Whatever the other lists do: a list whose source fails or delivers
+      content with the recorded checksum keeps its file, not replaced, and its
+      entry. *)
+  Theorem refresh_quiet_list_noop i b a force due oc st :
+    (forall l, In l (r_block st ++ r_allow st) -> f_id l = i -> no_update (oc i) (f_sum l)) ->
+    let st' := refresh b a force due oc st in
+    fentry i (r_files st') = fentry i (r_files st) /\
+    (forall k l, nth_error (r_block st) k = Some l -> f_id l = i -> nth_error (r_block st') k = Some l) /\
+    (forall k l, nth_error (r_allow st) k = Some l -> f_id l = i -> nth_error (r_allow st') k = Some l).
+  Proof.
+    intros Hq. unfold Refresh.refresh.
+    assert (Hb : forall l, In l (r_block st) -> f_id l = i -> no_update (oc i) (f_sum l))
+      by (intros; apply Hq; auto; apply in_app_iff; now left).
+    assert (Ha : forall l, In l (r_allow st) -> f_id l = i -> no_update (oc i) (f_sum l))
+      by (intros; apply Hq; auto; apply in_app_iff; now right).
+    pose proof (refresh_array_quiet i (r_block st) force due oc (r_files st) Hb) as H1.
+    destruct b.
+    - destruct (refresh_array (r_block st) force due oc (r_files st)) as [[[n1 e1] bl] fs1].
+      destruct H1 as (A1 & B1).
+      pose proof (refresh_array_quiet i (r_allow st) force due oc fs1 Ha) as H2.
+      destruct a.
+      + destruct (refresh_array (r_allow st) force due oc fs1) as [[[n2 e2] al] fs2].
+        destruct H2 as (A2 & B2). cbn. repeat split; auto. congruence.
+      + cbn. repeat split; auto.
+    - pose proof (refresh_array_quiet i (r_allow st) force due oc (r_files st) Ha) as H2.
+      destruct a.
+      + destruct (refresh_array (r_allow st) force due oc (r_files st)) as [[[n2 e2] al] fs2].
+        destruct H2 as (A2 & B2). cbn. repeat split; auto.
+      + cbn. repeat split; auto.
+  Qed.
+End Quiet.
+
+(** * The metadata stay in step with the stored files *)
+Section Meta.
+  Variable crc : N -> bytes -> N.
+  Notation update_one := (update_one crc).
+  Notation update_all := (update_all crc).
+  Notation refresh_array := (refresh_array crc).
+  Notation refresh := (refresh crc).
+  Notation set_entry := (set_entry crc).
+  Notation set_in := (set_in crc).
+  Notation set_props := (set_props crc).
+
+  (** [c] is a stored normal form with this rule count and checksum. *)
+  Definition describes (count sum : N) (c : bytes) : Prop :=
+    exists st, parse crc c false = (st, None) /\ output st = c /\ p_count st = count /\ p_sum st = sum.
+
+  (** An enabled list's rule count and checksum are those of its stored file
+      (zero without a file); a disabled list is unloaded. *)
+  Definition list_ok (fs : files) (l : flist) : Prop :=
+    if f_enabled l then
+      match fget (f_id l) fs with
+      | Some c => describes (f_count l) (f_sum l) c
+      | None => f_count l = 0 /\ f_sum l = 0
+      end
+    else f_count l = 0 /\ f_sum l = 0.
+
+  Definition wf (st : rstate) : Prop :=
+    NoDup (map f_id (r_block st ++ r_allow st)) /\
+    Forall (list_ok (r_files st)) (r_block st ++ r_allow st).
+
+  Lemma list_ok_fentry fs fs' l :
+    fentry (f_id l) fs' = fentry (f_id l) fs -> list_ok fs l -> list_ok fs' l.
+  Proof. intros E. unfold list_ok. now rewrite (fget_of_fentry _ _ _ E). Qed.
+
+  Definition upd_of (w : flist) (o : outcome) : upd := fst (update_one w o []).
+  Definition uid (u : upd) : N := f_id (u_list u).
+
+  Lemma update_all_fst oc : forall ws fs,
+    fst (update_all ws oc fs) = map (fun w => upd_of w (oc (f_id w))) ws.
+  Proof.
+    induction ws as [|w ws IH]; intros fs; cbn [Refresh.update_all map]; auto.
+    pose proof (update_one_fst crc w (oc (f_id w)) fs []) as F.
+    destruct (update_one w (oc (f_id w)) fs) as [u fs1]. specialize (IH fs1).
+    destruct (update_all ws oc fs1) as [us fs2]. cbn [fst] in *. now rewrite IH, F.
+  Qed.
+
+  Lemma update_one_fentry_congr w o fsA fsB j :
+    fentry j fsA = fentry j fsB ->
+    fentry j (snd (update_one w o fsA)) = fentry j (snd (update_one w o fsB)).
+  Proof.
+    intros E. unfold Refresh.update_one. destruct o as [|d re|d]; auto.
+    destruct (parse crc d re) as [st [e|]]; auto. destruct (p_sum st =? f_sum w); auto. cbn [snd].
+    destruct (N.eq_dec (f_id w) j) as [<-|Nj].
+    - rewrite !fentry_fset_eq. now rewrite (fgen_of_fentry _ _ _ E).
+    - now rewrite !fentry_fset_ne.
+  Qed.
+
+  Lemma find_id_none {A} (key : A -> N) j (ws : list A) :
+    ~ In j (map key ws) -> find (fun w => key w =? j) ws = None.
+  Proof.
+    induction ws as [|w ws IH]; cbn; auto. intros H.
+    destruct (N.eqb_spec (key w) j); [exfalso; auto|]. apply IH. tauto.
+  Qed.
+
+  Lemma update_all_files oc : forall ws fs j, NoDup (map f_id ws) ->
+    fentry j (snd (update_all ws oc fs)) =
+    match find (fun w => f_id w =? j) ws with
+    | Some w => fentry j (snd (update_one w (oc j) fs))
+    | None => fentry j fs
+    end.
+  Proof.
+    induction ws as [|w ws IH]; intros fs j ND; cbn [Refresh.update_all find map]; auto.
+    inversion ND as [|? ? Hn ND']; subst.
+    destruct (update_one w (oc (f_id w)) fs) as [u fs1] eqn:U.
+    specialize (IH fs1 j ND'). destruct (update_all ws oc fs1) as [us fs2]. cbn [snd] in *.
+    rewrite IH. destruct (N.eqb_spec (f_id w) j) as [<-|Nj].
+    - rewrite find_id_none by exact Hn. now rewrite U.
+    - assert (E : fentry j fs1 = fentry j fs).
+      { replace fs1 with (snd (update_one w (oc (f_id w)) fs)) by now rewrite U.
+        now apply update_one_other. }
+      destruct (find _ ws); [now apply update_one_fentry_congr|exact E].
+  Qed.
+
+  Lemma copy_back_off u f : (uid u =? f_id f) = false -> copy_back u f = f.
+  Proof. unfold copy_back, uid. now intros ->. Qed.
+
+  Lemma copy_back_all_spec : forall us ls, NoDup (map uid us) ->
+    snd (copy_back_all us ls) =
+    map (fun f => match find (fun u => uid u =? f_id f) us with
+                  | Some u => copy_back u f | None => f end) ls.
+  Proof.
+    induction us as [|u us IH]; intros ls ND; cbn [copy_back_all snd find].
+    - symmetry. apply map_id.
+    - inversion ND as [|? ? Hn ND']; subst.
+      specialize (IH (map (copy_back u) ls) ND').
+      destruct (copy_back_all us (map (copy_back u) ls)) as [n ls']. cbn [snd] in *.
+      rewrite IH, map_map. apply map_ext. intros f. rewrite copy_back_id.
+      destruct (uid u =? f_id f) eqn:E.
+      + apply N.eqb_eq in E. rewrite <- E. now rewrite find_id_none.
+      + now rewrite copy_back_off.
+  Qed.
+
+  Lemma find_map_gen {A B} (p : B -> bool) (g : A -> B) (l : list A) :
+    find p (map g l) = option_map g (find (fun x => p (g x)) l).
+  Proof. induction l as [|x l IH]; cbn; auto. destruct (p (g x)); auto. Qed.
+
+  Lemma find_ext_eq {A} (p q : A -> bool) (l : list A) : (forall x, p x = q x) -> find p l = find q l.
+  Proof. intros H. induction l as [|x l IH]; cbn; auto. rewrite H, IH. reflexivity. Qed.
+
+  Lemma nodup_ids_filter (sel : flist -> bool) : forall ls,
+    NoDup (map f_id ls) -> NoDup (map f_id (map wcopy (filter sel ls))).
+  Proof.
+    induction ls as [|l ls IH]; cbn; [constructor|]. intros ND. inversion ND as [|? ? Hn ND']; subst.
+    destruct (sel l); cbn; auto. constructor; auto.
+    intros Hin. apply Hn. rewrite map_map in Hin. cbn in Hin.
+    apply in_map_iff in Hin. destruct Hin as (x & E & Hx). apply filter_In in Hx.
+    apply in_map_iff. exists x. tauto.
+  Qed.
+
+  Lemma ids_filter_sub (sel : flist -> bool) ls j :
+    In j (map f_id (map wcopy (filter sel ls))) -> In j (map f_id ls).
+  Proof.
+    rewrite map_map. cbn. intros Hin. apply in_map_iff in Hin. destruct Hin as (x & E & Hx).
+    apply filter_In in Hx. apply in_map_iff. exists x. tauto.
+  Qed.
+
+  Lemma find_sel (sel : flist -> bool) : forall ls f,
+    NoDup (map f_id ls) -> In f ls ->
+    find (fun w => f_id w =? f_id f) (map wcopy (filter sel ls)) = if sel f then Some (wcopy f) else None.
+  Proof.
+    induction ls as [|l ls IH]; intros f ND Hin; [contradiction|].
+    inversion ND as [|? ? Hn ND']; subst. cbn [filter]. destruct Hin as [->|Hin].
+    - destruct (sel f); cbn [map find wcopy f_id].
+      + now rewrite N.eqb_refl.
+      + apply find_id_none. intros H. apply Hn. eapply ids_filter_sub; eauto.
+    - assert (Ne : f_id l <> f_id f).
+      { intros E. apply Hn. rewrite E. now apply in_map. }
+      destruct (sel l); cbn [map find wcopy f_id]; [destruct (N.eqb_spec (f_id l) (f_id f)); [contradiction|]|];
+        now apply IH.
+  Qed.
+
+  Lemma update_one_err_files l o fs : u_err (fst (update_one l o fs)) = true -> snd (update_one l o fs) = fs.
+  Proof.
+    pose proof (update_one_cases crc l o fs) as C. destruct (update_one l o fs) as [u fs']. cbn [fst snd].
+    destruct C as [(_ & -> & _)|(d & re & st & _ & _ & _ & _ & E & _)]; auto. congruence.
+  Qed.
+
+  Lemma refresh_array_wf ls force due oc fs :
+    NoDup (map f_id ls) -> Forall (list_ok fs) ls ->
+    let '(_, _, ls', fs') := refresh_array ls force due oc fs in
+    map f_id ls' = map f_id ls /\ Forall (list_ok fs') ls' /\
+    (forall j, ~ In j (map f_id ls) -> fentry j fs' = fentry j fs).
+  Proof.
+    intros ND OK. unfold Refresh.refresh_array.
+    set (sel := fun l => f_enabled l && (force || due (f_id l))).
+    set (ws := map wcopy (filter sel ls)).
+    assert (NDw : NoDup (map f_id ws)) by now apply nodup_ids_filter.
+    destruct ws as [|w0 wr] eqn:Ew; [auto|]. rewrite <- Ew in *.
+    pose proof (update_all_fst oc ws fs) as Hus. pose proof (fun j => update_all_files oc ws fs j NDw) as Hfs.
+    destruct (update_all ws oc fs) as [us fs']. cbn [fst snd] in *.
+    assert (Hout : forall j, ~ In j (map f_id ls) -> fentry j fs' = fentry j fs).
+    { intros j Hj. rewrite Hfs, find_id_none; auto. intros H. apply Hj. unfold ws in H.
+      eapply ids_filter_sub; eauto. }
+    destruct (forallb u_err us) eqn:AE.
+    - (* everything failed: no file has changed *)
+      assert (Hall : forall j, fentry j fs' = fentry j fs).
+      { intros j. rewrite Hfs. destruct (find _ ws) as [w|] eqn:F; auto.
+        apply find_some in F. destruct F as [Hin Hid]. apply N.eqb_eq in Hid.
+        rewrite update_one_err_files; auto.
+        rewrite forallb_forall in AE. rewrite (update_one_fst crc w (oc j) fs []).
+        apply AE. rewrite Hus. apply in_map_iff. exists w. unfold upd_of. now rewrite Hid. }
+      repeat split; auto. eapply Forall_impl; [|exact OK]. intros l. apply list_ok_fentry. apply Hall.
+    - assert (NDu : NoDup (map uid us)).
+      { rewrite Hus, map_map. erewrite map_ext; [exact NDw|]. intros w. unfold uid, upd_of.
+        now rewrite update_one_id. }
+      pose proof (copy_back_all_spec us ls NDu) as CB.
+      destruct (copy_back_all us ls) as [n ls']. cbn [snd] in CB. subst ls'.
+      split; [|split; auto].
+      + rewrite map_map. apply map_ext. intros f. destruct (find _ us); auto using copy_back_id.
+      + apply Forall_forall. intros f' Hin. apply in_map_iff in Hin. destruct Hin as (f & <- & Hf).
+        pose proof (proj1 (Forall_forall _ _) OK f Hf) as OKf.
+        (* which working copy belongs to [f] *)
+        rewrite Hus, find_map_gen.
+        rewrite (find_ext_eq _ (fun w => f_id w =? f_id f)) by
+          (intros w; unfold uid, upd_of; now rewrite update_one_id).
+        unfold ws. rewrite (find_sel sel ls f ND Hf).
+        specialize (Hfs (f_id f)). unfold ws in Hfs. rewrite (find_sel sel ls f ND Hf) in Hfs.
+        destruct (sel f) eqn:S; cbn [option_map].
+        * pose proof (update_one_cases crc (wcopy f) (oc (f_id f)) fs) as C.
+          pose proof (update_one_fst crc (wcopy f) (oc (f_id f)) fs []) as F1.
+          change (f_id (wcopy f)) with (f_id f).
+          unfold upd_of. rewrite <- F1.
+          destruct (update_one (wcopy f) (oc (f_id f)) fs) as [u fs1]. cbn [fst snd] in *.
+          destruct C as [(U & -> & L)|(d & re & st & _ & P & _ & U & _ & L & -> & st' & P' & O' & C' & S')].
+          -- unfold copy_back. rewrite U, andb_false_r. eapply list_ok_fentry; eauto.
+          -- unfold copy_back. rewrite U, L. cbn [f_id filled wcopy]. rewrite N.eqb_refl. cbn [andb].
+             unfold list_ok. cbn [f_enabled f_id f_count f_sum filled wcopy].
+             unfold sel in S. apply andb_true_iff in S. destruct S as [-> _].
+             unfold fget. rewrite Hfs, fentry_fset_eq. cbn [snd].
+             exists st'. auto.
+        * eapply list_ok_fentry; eauto.
+  Qed.
+  Lemma nodup_app_l {A} (a b : list A) : NoDup (a ++ b) -> NoDup a.
+  Proof.
+    induction a as [|h a IH]; cbn; [constructor|]. intros ND. inversion ND as [|? ? Hn ND']; subst.
+    constructor; auto. intros H. apply Hn, in_app_iff. now left.
+  Qed.
+
+  Lemma nodup_app_r {A} (a b : list A) : NoDup (a ++ b) -> NoDup b.
+  Proof. induction a as [|h a IH]; cbn; auto. intros ND. inversion ND; subst. auto. Qed.
+
+  Lemma nodup_app_disjoint {A} (a b : list A) x : NoDup (a ++ b) -> In x a -> ~ In x b.
+  Proof.
+    induction a as [|h a IH]; cbn; [tauto|]. intros ND [->|Hin] Hb.
+    - inversion ND as [|? ? Hn _]; subst. apply Hn, in_app_iff. now right.
+    - inversion ND; subst. now apply IH.
+  Qed.
+
+  Lemma nodup_app_disjoint_r {A} (a b : list A) x : NoDup (a ++ b) -> In x b -> ~ In x a.
+  Proof. intros ND Hb Ha. exact (nodup_app_disjoint a b x ND Ha Hb). Qed.
+
+  Lemma forall_ok_transfer fs fs' ls :
+    (forall l, In l ls -> fentry (f_id l) fs' = fentry (f_id l) fs) ->
+    Forall (list_ok fs) ls -> Forall (list_ok fs') ls.
+  Proof.
+    intros H OK. apply Forall_forall. intros l Hl. eapply list_ok_fentry; [now apply H|].
+    exact (proj1 (Forall_forall _ _) OK l Hl).
+  Qed.
+
+  (** A refresh keeps the metadata in step with the files, whatever the
+      sources do. *)
+  Theorem refresh_wf b a force due oc st : wf st -> wf (refresh b a force due oc st).
+  Proof.
+    intros [ND OK]. rewrite map_app in ND. apply Forall_app in OK. destruct OK as [OKb OKa].
+    pose proof (nodup_app_l _ _ ND) as NDb. pose proof (nodup_app_r _ _ ND) as NDa.
+    unfold Refresh.refresh.
+    (* block array *)
+    assert (H1 : let '(_, _, bl, fs1) :=
+                   (if b then refresh_array (r_block st) force due oc (r_files st)
+                    else (0, false, r_block st, r_files st)) in
+                 map f_id bl = map f_id (r_block st) /\ Forall (list_ok fs1) bl /\
+                 (forall j, ~ In j (map f_id (r_block st)) -> fentry j fs1 = fentry j (r_files st))).
+    { destruct b; [|auto]. apply refresh_array_wf; auto. }
+    destruct (if b then _ else _) as [[[n1 e1] bl] fs1]. destruct H1 as (I1 & O1 & X1).
+    assert (OKa1 : Forall (list_ok fs1) (r_allow st)).
+    { eapply forall_ok_transfer; [|exact OKa]. intros l Hl. apply X1.
+      eapply nodup_app_disjoint_r; [exact ND|]. now apply in_map. }
+    assert (H2 : let '(_, _, al, fs2) :=
+                   (if a then refresh_array (r_allow st) force due oc fs1
+                    else (0, false, r_allow st, fs1)) in
+                 map f_id al = map f_id (r_allow st) /\ Forall (list_ok fs2) al /\
+                 (forall j, ~ In j (map f_id (r_allow st)) -> fentry j fs2 = fentry j fs1)).
+    { destruct a; [|auto]. apply refresh_array_wf; auto. }
+    destruct (if a then _ else _) as [[[n2 e2] al] fs2]. destruct H2 as (I2 & O2 & X2).
+    split; cbn [r_block r_allow r_files].
+    - now rewrite map_app, I1, I2.
+    - apply Forall_app. split; auto.
+      eapply forall_ok_transfer; [|exact O1]. intros l Hl. apply X2.
+      eapply nodup_app_disjoint; [exact ND|]. rewrite <- I1. now apply in_map.
+  Qed.
+
+  (** ** set_url: name and enabled flag *)
+
+  Lemma set_entry_id f name en o fs : f_id (snd (fst (set_entry f name en o fs))) = f_id f.
+  Proof.
+    unfold Refresh.set_entry. destruct en; [|now destruct (negb _)].
+    destruct (negb _); [|reflexivity].
+    pose proof (update_one_id crc {| f_id := f_id f; f_enabled := true; f_name := name; f_count := f_count f; f_sum := f_sum f |} o fs) as I.
+    destruct (update_one _ o fs) as [u fs']. cbn [fst] in I.
+    destruct (u_err u); [reflexivity|]. destruct (u_updated u); exact I.
+  Qed.
+
+  Lemma set_entry_other f name en o fs j : f_id f <> j ->
+    fentry j (snd (set_entry f name en o fs)) = fentry j fs.
+  Proof.
+    intros Nj. unfold Refresh.set_entry. destruct en; [|now destruct (negb _)].
+    destruct (negb _); [|reflexivity].
+    pose proof (update_one_other crc {| f_id := f_id f; f_enabled := true; f_name := name; f_count := f_count f; f_sum := f_sum f |} o fs j Nj) as I.
+    destruct (update_one _ o fs) as [u fs']. cbn [snd] in I.
+    destruct (u_err u); [exact I|]. destruct (u_updated u); [exact I|]. cbn [snd].
+    now rewrite fentry_fdel_ne.
+  Qed.
+
+  Lemma set_entry_ok f name en o fs : list_ok fs f ->
+    let '(_, _, f', fs') := set_entry f name en o fs in list_ok fs' f'.
+  Proof.
+    intros OK. unfold Refresh.set_entry. destruct en.
+    - destruct (f_enabled f) eqn:En; cbn [negb Bool.eqb].
+      + (* stays enabled: only the name *) unfold list_ok in *. cbn [f_enabled f_id f_count f_sum]. now rewrite En in OK.
+      + unfold list_ok in OK. rewrite En in OK. destruct OK as [C0 S0].
+        set (f1 := {| f_id := f_id f; f_enabled := true; f_name := name; f_count := f_count f; f_sum := f_sum f |}).
+        pose proof (update_one_cases crc f1 o fs) as C. destruct (update_one f1 o fs) as [u fs'].
+        destruct C as [(U & -> & L)|(d & re & st & _ & P & _ & U & E & L & -> & st' & P' & O' & C' & S')].
+        * rewrite U, L. destruct (u_err u).
+          -- unfold list_ok. cbn [f_enabled f_count f_sum f1]. auto.
+          -- unfold list_ok. cbn [f_enabled f_id f_count f_sum f1]. now rewrite fget_fdel_eq.
+        * rewrite U, E, L. unfold list_ok. cbn [f_enabled f_id f_count f_sum filled f1].
+          rewrite fget_fset_eq. exists st'. auto.
+    - cbv [list_ok unload f_enabled f_count f_sum]. auto.
+  Qed.
+
+  Lemma set_in_spec : forall ls i name en o fs,
+    NoDup (map f_id ls) -> Forall (list_ok fs) ls ->
+    match set_in ls i name en o fs with
+    | None => True
+    | Some (_, _, ls', fs') =>
+        map f_id ls' = map f_id ls /\ Forall (list_ok fs') ls' /\
+        (forall j, j <> i -> fentry j fs' = fentry j fs)
+    end.
+  Proof.
+    induction ls as [|f ls IH]; intros i name en o fs ND OK; cbn [Refresh.set_in]; auto.
+    inversion ND as [|? ? Hn ND']; subst. inversion OK as [|? ? OKf OKr]; subst.
+    destruct (N.eqb_spec (f_id f) i) as [E|E].
+    - pose proof (set_entry_ok f name en o fs OKf) as S.
+      pose proof (set_entry_id f name en o fs) as I.
+      pose proof (set_entry_other f name en o fs) as X.
+      destruct (set_entry f name en o fs) as [[[rs er] f'] fs']. cbn [fst snd] in *.
+      split; [cbn; now rewrite I|]. split.
+      + constructor; auto. eapply forall_ok_transfer; [|exact OKr]. intros l Hl. apply X.
+        intros E2. apply Hn. rewrite E2. now apply in_map.
+      + intros j Hj. apply X. congruence.
+    - specialize (IH i name en o fs ND' OKr). destruct (set_in ls i name en o fs) as [[[[rs er] ls'] fs']|]; auto.
+      destruct IH as (I & O & X). split; [cbn; now rewrite I|]. split; auto.
+      constructor; auto. eapply list_ok_fentry; [|exact OKf]. now apply X.
+  Qed.
+
+  Lemma set_in_ids_absent : forall ls i name en o fs, ~ In i (map f_id ls) -> set_in ls i name en o fs = None.
+  Proof.
+    induction ls as [|f ls IH]; intros i name en o fs H; cbn [Refresh.set_in]; auto.
+    destruct (N.eqb_spec (f_id f) i) as [E|E]; [exfalso; apply H; now left|].
+    rewrite IH; auto. intros Hin. apply H. now right.
+  Qed.
+
+  Theorem set_props_wf allow i name en o st : wf st -> wf (snd (set_props allow i name en o st)).
+  Proof.
+    intros [ND OK]. rewrite map_app in ND. apply Forall_app in OK. destruct OK as [OKb OKa].
+    pose proof (nodup_app_l _ _ ND) as NDb. pose proof (nodup_app_r _ _ ND) as NDa.
+    unfold Refresh.set_props. destruct allow.
+    - pose proof (set_in_spec (r_allow st) i name en o (r_files st) NDa OKa) as S.
+      destruct (In_dec N.eq_dec i (map f_id (r_allow st))) as [Hin|Hout].
+      + destruct (set_in _ i name en o _) as [[[[rs er] ls'] fs']|]; [|split; [now rewrite map_app|now apply Forall_app]].
+        destruct S as (I & O & X). unfold wf. cbn [snd r_block r_allow r_files]. split.
+        * now rewrite map_app, I.
+        * apply Forall_app. split; auto. eapply forall_ok_transfer; [|exact OKb]. intros l Hl. apply X.
+          intros E. apply (nodup_app_disjoint _ _ (f_id l) ND); [now apply in_map|now rewrite E].
+      + rewrite set_in_ids_absent by exact Hout. split; [now rewrite map_app|now apply Forall_app].
+    - pose proof (set_in_spec (r_block st) i name en o (r_files st) NDb OKb) as S.
+      destruct (In_dec N.eq_dec i (map f_id (r_block st))) as [Hin|Hout].
+      + destruct (set_in _ i name en o _) as [[[[rs er] ls'] fs']|]; [|split; [now rewrite map_app|now apply Forall_app]].
+        destruct S as (I & O & X). unfold wf. cbn [snd r_block r_allow r_files]. split.
+        * now rewrite map_app, I.
+        * apply Forall_app. split; auto. eapply forall_ok_transfer; [|exact OKa]. intros l Hl. apply X.
+          intros E. apply (nodup_app_disjoint_r _ _ (f_id l) ND); [now apply in_map|now rewrite E].
+      + rewrite set_in_ids_absent by exact Hout. split; [now rewrite map_app|now apply Forall_app].
+  Qed.
+
+  (** ** Histories of refreshes and set_url calls *)
+  Inductive hop :=
+    | HRefresh (block allow force : bool) (due : N -> bool) (oc : N -> outcome)
+    | HSet (allow : bool) (i : N) (name : bytes) (enabled : bool) (o : outcome).
+
+  Definition run_hop (st : rstate) (h : hop) : rstate :=
+    match h with
+    | HRefresh b a f due oc => refresh b a f due oc st
+    | HSet a i name en o => snd (set_props a i name en o st)
+    end.
+
+  Definition run_hist (hs : list hop) (st : rstate) : rstate := fold_left run_hop hs st.
+
+  Theorem history_wf hs : forall st, wf st -> wf (run_hist hs st).
+  Proof.
+    unfold run_hist. induction hs as [|h hs IH]; intros st W; cbn [fold_left]; auto.
+    apply IH. destruct h; cbn [run_hop]; [now apply refresh_wf|now apply set_props_wf].
+  Qed.
+
+  (** After any history: the rule count and checksum of every enabled list
+      are those of a re-parse of its stored file, which reproduces the file. *)
+  Corollary history_meta_matches_file hs st l c :
+    wf st -> let st' := run_hist hs st in
+    In l (r_block st' ++ r_allow st') -> f_enabled l = true -> fget (f_id l) (r_files st') = Some c ->
+    describes (f_count l) (f_sum l) c.
+  Proof.
+    intros W st' Hin En G. destruct (history_wf hs st W) as [_ OK].
+    pose proof (proj1 (Forall_forall _ _) OK l Hin) as H. unfold list_ok in H. fold st' in H.
+    now rewrite En, G in H.
+  Qed.
+
+  (** ... so a source that delivers what is stored (in any spelling with the
+      same normal form) does not make the file be replaced, in any history. *)
+  Theorem stored_content_not_rewritten b a force due oc st l c d re pst :
+    wf st -> In l (r_block st ++ r_allow st) -> f_enabled l = true ->
+    fget (f_id l) (r_files st) = Some c ->
+    oc (f_id l) = OBody d re -> parse crc d re = (pst, None) -> output pst = c ->
+    let st' := refresh b a force due oc st in
+    fentry (f_id l) (r_files st') = fentry (f_id l) (r_files st) /\
+    In l (r_block st' ++ r_allow st').
+  Proof.
+    intros [ND OK] Hin En G Ho P Out st'.
+    assert (Q : forall l', In l' (r_block st ++ r_allow st) -> f_id l' = f_id l -> no_update crc (oc (f_id l)) (f_sum l')).
+    { intros l' Hin' Hid. right. exists d, re, pst. repeat split; auto.
+      assert (l' = l); [|subst l'].
+      { clear - ND Hin Hin' Hid. induction (r_block st ++ r_allow st) as [|x xs IH]; [contradiction|].
+        cbn in ND. inversion ND as [|? ? Hn ND']; subst.
+        destruct Hin as [->|Hin], Hin' as [->|Hin']; auto.
+        - exfalso. apply Hn. rewrite <- Hid. now apply in_map.
+        - exfalso. apply Hn. rewrite Hid. now apply in_map. }
+      pose proof (proj1 (Forall_forall _ _) OK l Hin) as H. unfold list_ok in H. rewrite En, G in H.
+      destruct H as (st2 & P2 & O2 & C2 & S2).
+      destruct (parse_fixed_point crc _ _ _ P) as (st3 & P3 & _ & _ & S3 & _).
+      rewrite Out in P3. rewrite P3 in P2. injection P2 as <-. congruence. }
+    destruct (refresh_quiet_list_noop crc (f_id l) b a force due oc st Q) as (F & Bk & Al).
+    fold st' in F, Bk, Al. split; auto.
+    apply in_app_iff in Hin. apply in_app_iff. destruct Hin as [H|H]; apply In_nth_error in H; destruct H as [k H];
+      [left; eapply nth_error_In; apply (Bk k l H eq_refl)|right; eapply nth_error_In; apply (Al k l H eq_refl)].
+  Qed.
+  (** ** Disabling takes a list's rules out of force, enabling puts them back *)
+
+  Definition arr (allow : bool) (st : rstate) : list flist := if allow then r_allow st else r_block st.
+  Definition eng_arr (allow : bool) (e : engine) : list (N * bytes) := if allow then e_allow e else e_block e.
+  Definition other_id (i : N) (x : flist) : Prop := (f_id x =? i) = false.
+
+  Lemma set_in_split post f i name en o fs : forall pre,
+    Forall (other_id i) pre -> f_id f = i ->
+    set_in (pre ++ f :: post) i name en o fs =
+    let '(rs, er, f', fs') := set_entry f name en o fs in Some (rs, er, pre ++ f' :: post, fs').
+  Proof.
+    induction pre as [|x pre IH]; intros Hp Hi; cbn [app Refresh.set_in].
+    - rewrite Hi, N.eqb_refl. reflexivity.
+    - inversion Hp as [|? ? Hx Hp']; subst. unfold other_id in Hx. rewrite Hx. rewrite IH by auto.
+      destruct (set_entry f name en o fs) as [[[rs er] f'] fs']. reflexivity.
+  Qed.
+
+  Lemma existsb_split_on pre f' post i : f_id f' = i -> f_enabled f' = true ->
+    existsb (fun l => (f_id l =? i) && f_enabled l) (pre ++ f' :: post) = true.
+  Proof.
+    intros Hi He. rewrite existsb_app. cbn [existsb]. rewrite Hi, He, N.eqb_refl. cbn.
+    now rewrite orb_true_r.
+  Qed.
+
+  Lemma existsb_others i ls : Forall (other_id i) ls ->
+    existsb (fun l => (f_id l =? i) && f_enabled l) ls = false.
+  Proof. induction 1 as [|x ls Hx _ IH]; cbn; auto. unfold other_id in Hx. now rewrite Hx, IH. Qed.
+
+  Lemma existsb_split_off pre f' post i :
+    Forall (other_id i) pre -> Forall (other_id i) post -> f_enabled f' = false ->
+    existsb (fun l => (f_id l =? i) && f_enabled l) (pre ++ f' :: post) = false.
+  Proof.
+    intros Hp Hq He. rewrite existsb_app. cbn [existsb]. rewrite He, andb_false_r.
+    now rewrite !existsb_others.
+  Qed.
+
+  (** Enabling a disabled (hence unloaded) list whose source delivers a
+      list text: no error, the engine is rebuilt from the files, and what is in
+      force for the list is the normal form of that text (nothing when it has
+      no rules: the checksum of an unloaded list). *)
+  Theorem enable_puts_rules_in_force allow i name d re pst st pre f post :
+    arr allow st = pre ++ f :: post -> Forall (other_id i) pre -> f_id f = i ->
+    f_enabled f = false -> f_sum f = 0 ->
+    parse crc d re = (pst, None) ->
+    let '(rs, er, st') := set_props allow i name true (OBody d re) st in
+    er = false /\ rs = true /\ engine_consistent st' /\
+    lookup i (eng_arr allow (r_engine st')) = (if p_sum pst =? 0 then None else Some (output pst)) /\
+    fget i (r_files st') = (if p_sum pst =? 0 then None else Some (output pst)).
+  Proof.
+    intros Ha Hp Hi En S0 P. unfold Refresh.set_props. fold (arr allow st). rewrite Ha.
+    rewrite set_in_split by auto. unfold Refresh.set_entry. rewrite En. cbn [Bool.eqb negb].
+    unfold Refresh.update_one. rewrite P. cbn [f_sum]. rewrite S0.
+    destruct (p_sum pst =? 0) eqn:Z; cbn [u_err u_updated u_list negb andb];
+      (split; [reflexivity|]; split; [reflexivity|]; split; [destruct allow; reflexivity|]).
+    - destruct allow; cbn [eng_arr r_engine r_files rebuild e_allow e_block];
+        rewrite lookup_snapshot, existsb_split_on by auto; rewrite Hi, fget_fdel_eq; auto.
+    - destruct allow; cbn [eng_arr r_engine r_files rebuild e_allow e_block];
+        rewrite lookup_snapshot, existsb_split_on by auto; cbn [f_id]; rewrite Hi, fget_fset_eq; auto.
+  Qed.
+
+  (** Disabling an enabled list: the engine is rebuilt without it, its file
+      stays, its entry is unloaded. *)
+  Theorem disable_takes_rules_out allow i name o st pre f post :
+    arr allow st = pre ++ f :: post -> Forall (other_id i) pre -> Forall (other_id i) post -> f_id f = i ->
+    f_enabled f = true ->
+    let '(rs, er, st') := set_props allow i name false o st in
+    er = false /\ rs = true /\ engine_consistent st' /\
+    lookup i (eng_arr allow (r_engine st')) = None /\ r_files st' = r_files st /\
+    arr allow st' = pre ++ {| f_id := i; f_enabled := false; f_name := name; f_count := 0; f_sum := 0 |} :: post.
+  Proof.
+    intros Ha Hp Hq Hi En. unfold Refresh.set_props. fold (arr allow st). rewrite Ha.
+    rewrite set_in_split by auto. unfold Refresh.set_entry. rewrite En. cbn [Bool.eqb negb andb unload f_id f_enabled f_name].
+    split; [reflexivity|]. split; [reflexivity|]. split; [destruct allow; reflexivity|].
+    split; [|split; [reflexivity|destruct allow; cbn [arr r_allow r_block]; now rewrite Hi]].
+    destruct allow; cbn [eng_arr r_engine r_files rebuild e_allow e_block];
+      rewrite lookup_snapshot, existsb_split_off; auto.
+  Qed.
+
+  (** Enabling with a failing source (any of the failures, at any byte of
+      the body): an error is reported and nothing changes. *)
+  Theorem failed_enable_is_noop allow i name o st pre f post :
+    arr allow st = pre ++ f :: post -> Forall (other_id i) pre -> f_id f = i ->
+    f_enabled f = false -> fails crc o ->
+    set_props allow i name true o st = (false, true, st).
+  Proof.
+    intros Ha Hp Hi En F. unfold Refresh.set_props. fold (arr allow st). rewrite Ha.
+    rewrite set_in_split by auto. unfold Refresh.set_entry. rewrite En. cbn [Bool.eqb negb].
+    rewrite update_one_failed by exact F. cbn [failed_upd u_err u_updated u_list f_sum negb andb].
+    replace {| f_id := f_id f; f_enabled := false; f_name := f_name f; f_count := f_count f; f_sum := f_sum f |}
+      with f by (destruct f; cbn in *; now subst).
+    rewrite <- Ha. destruct st as [bl al fs e]. destruct allow; reflexivity.
+  Qed.
+
+  (** A call for a list that is not there is refused and changes nothing. *)
+  Theorem set_unknown_is_noop allow i name en o st :
+    ~ In i (map f_id (arr allow st)) -> set_props allow i name en o st = (false, true, st).
+  Proof.
+    intros H. unfold Refresh.set_props. fold (arr allow st). now rewrite set_in_ids_absent.
+  Qed.
+End Meta.
+
 (** * Non-vacuity *)
 Module RExamples.
   Definition good : bytes := [124;124;112;49;94;10].     (* ||p1^ *)
@@ -419,4 +1027,49 @@ Example rename_failure_example :
   nth_error (r_block RenameFail.st_c) 0 = nth_error (r_block RenameFail.st_b) 0 /\
   fentry 2 (r_files RenameFail.st_c) = Some (2, RExamples.good2) /\
   verdict (r_engine RenameFail.st_c) [112;49] = 1 /\ verdict (r_engine RenameFail.st_c) [112;50] = 1.
+Proof. vm_compute. repeat split; congruence. Qed.
+
+(** An HTML page fails as a source also when blank, white-space-only, comment
+    or title lines precede its head. *)
+Lemma html_after_unwritten_fails crc pre h rest re :
+  Forall (fun l => ~ In 10 l /\ lenN l < max_token) (pre ++ [h]) ->
+  Forall (fun l => unwritten (drop_cr l)) pre ->
+  is_html_line (trim_space (drop_cr h)) = true ->
+  fails crc (OBody (flat_map (fun l => l ++ [10]) pre ++ h ++ 10 :: rest) re).
+Proof.
+  intros A B C. destruct (parse_html_after_unwritten crc pre h rest re A B C) as (st & P & _).
+  cbn. rewrite P. discriminate.
+Qed.
+
+(** Non-vacuity for the history theorems: the state after a first refresh is
+    well formed; disabling the block list takes p1 out of force, enabling it
+    again with the same bytes puts it back (file replaced once more), enabling
+    it with a failing source changes nothing. *)
+Module SetExamples.
+  Import RExamples.
+  Definition st_off := snd (set_props crc32_update false 1 [120] false OOpenErr st1).
+  Definition st_on := snd (set_props crc32_update false 1 [120] true (OBody good false) st_off).
+End SetExamples.
+
+Example wf_example : wf crc32_update RExamples.st0 /\ wf crc32_update RExamples.st1.
+Proof.
+  assert (W0 : wf crc32_update RExamples.st0).
+  { split.
+    - cbv [RExamples.st0 RExamples.mk r_block r_allow app map f_id].
+      constructor; [cbn; intros [H|[]]; discriminate|]. constructor; [intros []|constructor].
+    - cbv [RExamples.st0 RExamples.mk r_block r_allow r_files app].
+      constructor; [|constructor; [|constructor]]; cbv [list_ok f_enabled f_count f_sum f_id fget fentry find]; auto. }
+  split; [exact W0|]. now apply refresh_wf.
+Qed.
+
+Example set_example :
+  verdict (r_engine RExamples.st1) [112;49] = 2 /\
+  lookup 1 (e_block (r_engine RExamples.st1)) = Some RExamples.good /\
+  lookup 1 (e_block (r_engine SetExamples.st_off)) = None /\
+  map f_sum (r_block SetExamples.st_off) = [0] /\
+  fentry 1 (r_files SetExamples.st_off) = Some (1, RExamples.good) /\
+  lookup 1 (e_block (r_engine SetExamples.st_on)) = Some RExamples.good /\
+  fentry 1 (r_files SetExamples.st_on) = Some (2, RExamples.good) /\
+  set_props crc32_update false 1 [120] true (OBody RExamples.html false) SetExamples.st_off
+    = (false, true, SetExamples.st_off).
 Proof. vm_compute. repeat split; congruence. Qed.
